@@ -1407,7 +1407,7 @@ void Parser::ParserImpl::loadConnection(const ModelPtr &model, const XmlNodePtr 
                     if (!variable1Missing) {
                         auto issue = Issue::IssueImpl::create();
                         issue->mPimpl->setDescription("Variable '" + iterInfo[0] + "' is specified as variable_1 in a connection but it does not exist in component_1 component '" + component1->name() + "' of model '" + model->name() + "'.");
-                        issue->mPimpl->mItem->mPimpl->setConnection(variable1, variable2);
+                        issue->mPimpl->mItem->mPimpl->setModel(model);
                         issue->mPimpl->setReferenceRule(Issue::ReferenceRule::MAP_VARIABLES_VARIABLE1_ATTRIBUTE_REFERENCE);
                         addIssue(issue);
                     }
@@ -1415,7 +1415,7 @@ void Parser::ParserImpl::loadConnection(const ModelPtr &model, const XmlNodePtr 
             } else {
                 auto issue = Issue::IssueImpl::create();
                 issue->mPimpl->setDescription("Connection in model '" + model->name() + "' specifies '" + iterInfo[0] + "' as variable_1 but the corresponding component_1 is invalid.");
-                issue->mPimpl->mItem->mPimpl->setConnection(variable1, variable2);
+                issue->mPimpl->mItem->mPimpl->setModel(model);
                 issue->mPimpl->setReferenceRule(Issue::ReferenceRule::CONNECTION_COMPONENT1_ATTRIBUTE);
                 addIssue(issue);
             }
@@ -1431,7 +1431,7 @@ void Parser::ParserImpl::loadConnection(const ModelPtr &model, const XmlNodePtr 
                     if (!variable2Missing) {
                         auto issue = Issue::IssueImpl::create();
                         issue->mPimpl->setDescription("Variable '" + iterInfo[1] + "' is specified as variable_2 in a connection but it does not exist in component_2 component '" + component2->name() + "' of model '" + model->name() + "'.");
-                        issue->mPimpl->mItem->mPimpl->setConnection(variable1, variable2);
+                        issue->mPimpl->mItem->mPimpl->setModel(model);
                         issue->mPimpl->setReferenceRule(Issue::ReferenceRule::MAP_VARIABLES_VARIABLE2_ATTRIBUTE_REFERENCE);
                         addIssue(issue);
                     }
@@ -1439,7 +1439,7 @@ void Parser::ParserImpl::loadConnection(const ModelPtr &model, const XmlNodePtr 
             } else {
                 auto issue = Issue::IssueImpl::create();
                 issue->mPimpl->setDescription("Connection in model '" + model->name() + "' specifies '" + iterInfo[1] + "' as variable_2 but the corresponding component_2 is invalid.");
-                issue->mPimpl->mItem->mPimpl->setConnection(variable1, variable2);
+                issue->mPimpl->mItem->mPimpl->setModel(model);
                 issue->mPimpl->setReferenceRule(Issue::ReferenceRule::CONNECTION_COMPONENT2_ATTRIBUTE);
                 addIssue(issue);
             }
